@@ -81,7 +81,8 @@ func (p *BinaryProtocol) malloc(size int) ([]byte, error) {
 // next ...
 func (p *BinaryProtocol) next(size int) ([]byte, error) {
 	if size <= 0 {
-		panic(errors.New("invalid size"))
+		// sizes come from the wire (length prefixes): an impossible one is a data error, not a programming error
+		return nil, errors.New("invalid size")
 	}
 
 	l := len(p.Buf)
@@ -939,6 +940,10 @@ func (p *BinaryProtocol) ReadLength() (int, error) {
 	value, n := protowire.BinaryDecoder{}.DecodeUint64((p.Buf)[p.Read:])
 	if n < 0 {
 		return 0, errDecodeField
+	}
+	// callers slice the buffer with the returned length
+	if value > uint64(len(p.Buf)-p.Read-n) {
+		return 0, io.ErrUnexpectedEOF
 	}
 	_, err := p.next(n)
 	return int(value), err
